@@ -5,7 +5,7 @@ from typing import Optional, TYPE_CHECKING
 
 import wn
 from wn.constants import ADJ, ADJ_SAT
-from wn._util import flatten
+from wn._util import flatten, unique_list
 from wn import _core
 
 if TYPE_CHECKING:
@@ -242,7 +242,9 @@ def _shortest_hyp_paths(
                         depths[ss] = depth
 
     shortest: dict[tuple[Synset, int], list[Synset]] = {}
-    for ss in common:
+    # iterate in path order, not set order, so that ties between equally
+    # short paths or equally deep hypernyms are always broken the same way
+    for ss in unique_list(ss for ss in flatten(from_self) if ss in common):
         from_self_subpaths, from_other_subpaths = subpaths[ss]
         shortest_from_self = min(from_self_subpaths, key=len)
         # for the other path, we need to reverse it and remove the pivot synset
